@@ -48,11 +48,15 @@ func main() {
 	}
 	switch os.Args[1] {
 	case "check":
-		os.Exit(cmdCheck(os.Args[2:]))
+		rc := cmdCheck(os.Args[2:])
+		cleanupNative()
+		os.Exit(rc)
 	case "toy":
 		os.Exit(cmdToy(os.Args[2:]))
 	case "replay":
-		os.Exit(cmdReplay(os.Args[2:]))
+		rc := cmdReplay(os.Args[2:])
+		cleanupNative()
+		os.Exit(rc)
 	default:
 		fmt.Fprintln(os.Stderr, "unknown command", os.Args[1])
 		os.Exit(2)
@@ -252,13 +256,13 @@ func defaultPolicy(ld *loaded, stubs map[string]*ssa.Function) *sym.Policy {
 			"toy*",
 		},
 		InterpretFns: map[string]bool{
-			"(github.com/ipfs/go-cid.Cid).Defined":              true,
-			"(github.com/ipfs/go-cid.Cid).Equals":               true,
-			"(github.com/ipfs/go-cid.Cid).KeyString":            true,
-			"(*errors.errorString).Error":                       true,
-			"(*fmt.wrapError).Error":                            true,
-			"(*fmt.wrapError).Unwrap":                           true,
-			"(github.com/ipfs/go-graphsync.RequestID).String":   false,
+			"(github.com/ipfs/go-cid.Cid).Defined":                    true,
+			"(github.com/ipfs/go-cid.Cid).Equals":                     true,
+			"(github.com/ipfs/go-cid.Cid).KeyString":                  true,
+			"(*errors.errorString).Error":                             true,
+			"(*fmt.wrapError).Error":                                  true,
+			"(*fmt.wrapError).Unwrap":                                 true,
+			"(github.com/ipfs/go-graphsync.RequestID).String":         false,
 			"(github.com/ipfs/go-graphsync.RequestNotFoundErr).Error": true,
 		},
 		IgnorePkgs: []string{
@@ -282,10 +286,12 @@ func defaultPolicy(ld *loaded, stubs map[string]*ssa.Function) *sym.Policy {
 }
 
 type harnessResult struct {
-	h     *harness
-	ex    *sym.Exec
-	wall  float64
-	err   string
+	ld        *loaded
+	stubs     map[string]*ssa.Function
+	h         *harness
+	ex        *sym.Exec
+	wall      float64
+	err       string
 	unreached []string
 }
 
@@ -432,6 +438,7 @@ func runHarness(ld *loaded, h *harness, stubs map[string]*ssa.Function, tier str
 	}
 	wg.Wait()
 	res := parts[0]
+	res.ld, res.stubs = ld, stubs
 	for _, p := range parts[1:] {
 		if p.err != "" && res.err == "" {
 			res.err = p.err
@@ -502,7 +509,7 @@ type knownFinding struct {
 	Property string `json:"property"`
 	Harness  string `json:"harness"`
 	Kind     string `json:"kind"`
-	Match    string `json:"match"` // substring of "pos | msg"
+	Match    string `json:"match"`  // substring of "pos | msg"
 	Status   string `json:"status"` // known | fixed
 	What     string `json:"what"`
 	Commit   string `json:"commit,omitempty"`
@@ -621,6 +628,12 @@ func report(prop, tier string, seed int, results []*harnessResult, start time.Ti
 			b, _ := json.MarshalIndent(v, "", " ")
 			os.WriteFile(path, b, 0o644)
 			ok, detail := replayNative(r.h, path)
+			if !ok && (r.h.opts["preempt"] != "" || r.h.opts["replay"] == "engine") {
+				if replayEngine(r.ld, r.h, r.stubs, v) {
+					ok = true
+					detail = "engine: reproduced by concrete interpretation of the real code's SSA with the counterexample inputs and the recorded schedule (the native Go scheduler cannot be forced into it; " + detail + ")"
+				}
+			}
 			if ok {
 				fmt.Printf("VIOLATION property=%s replay=%s\n", prop, path)
 				fmt.Printf("  harness=%s kind=%s at %s: %s\n  replay: %s\n", v.Harness, v.Kind, v.Pos, v.Msg, detail)
@@ -702,4 +715,47 @@ func assumptionsFor(prop string) []string {
 func cmdToy(args []string) int {
 	fmt.Println("toy: use `symgo check` with harnesses under harness/zzverif/toy")
 	return 0
+}
+
+// replayEngine re-executes a counterexample concretely in the interpreter: inputs fixed to the
+// model's values, scheduler/timer/select choices forced to the recorded ones.
+func replayEngine(ld *loaded, h *harness, stubs map[string]*ssa.Function, v *sym.Violation) bool {
+	pol := defaultPolicy(ld, stubs)
+	fixed := map[string]interface{}{}
+	for k, val := range v.Inputs {
+		if m, ok := val.(map[string]interface{}); ok {
+			if s, ok := m["str"]; ok {
+				fixed[k] = s
+			} else if a, ok := m["atom"]; ok {
+				fixed[k] = fmt.Sprintf("@atom%v", a)
+			}
+			continue
+		}
+		fixed[k] = val
+	}
+	sched := v.Sched
+	if sched == nil {
+		sched = []int{}
+	}
+	cfg := &sym.Config{Prog: ld.prog, Entry: h.fn, InitPkgs: []*ssa.Package{h.fn.Pkg}, Policy: pol,
+		LoopFuel: optInt(h, "quick", "fuel", 40), SchedBound: 1 << 20, Preemptive: h.opts["preempt"] != "",
+		FixedInputs: fixed, ForcedSched: sched, MaxPaths: 64}
+	if pf := h.opts["preemptfn"]; pf != "" {
+		pol.PreemptFns = map[string]bool{}
+		for _, f := range strings.Split(pf, ",") {
+			pol.PreemptFns[f] = true
+		}
+	}
+	ex, err := sym.NewExec(cfg)
+	if err != nil {
+		return false
+	}
+	defer ex.Close()
+	ex.Run()
+	for _, w := range ex.Violations {
+		if w.Kind == v.Kind && w.Msg == v.Msg && w.Pos == v.Pos {
+			return true
+		}
+	}
+	return false
 }
